@@ -8,8 +8,8 @@ import (
 	"runtime/debug"
 	"time"
 
-	"verif/engine/chk"
 	_ "verif/engine/checks"
+	"verif/engine/chk"
 )
 
 func main() {
